@@ -86,6 +86,8 @@ pub fn roomy_cfg(rng: &mut Rng, flavor: Flavor) -> Cfg {
         validator: Validator::Always,
         coster: false,
         callback: CallbackMode::Full,
+        use_defaults: false,
+        recipe: 0,
     }
 }
 
@@ -827,7 +829,35 @@ pub fn gen_enum_chaos(prop: &str, seed: u64, variant: u64) -> Plan {
     p
 }
 
+/// The documented defaults of the builder (README / builder docs): insert buffer 32*1024, get
+/// buffer 64, cleanup every 2 s, no metrics, internal cost counted.
+pub fn apply_defaults(p: &mut Plan) {
+    if matches!(p.cfg.keys, KeyMode::Typed { .. }) || p.has_tag("small_buffer") || p.has_tag("bulk") || p.prop == "C20" || p.prop == "C13" || p.prop == "C15" || p.prop == "C17" {
+        return;
+    }
+    p.cfg.use_defaults = true;
+    p.cfg.buffer_size = 32 * 1024;
+    p.cfg.buffer_items = 64;
+    p.cfg.cleanup_ms = 2000;
+    p.cfg.metrics = false;
+    p.cfg.ignore_internal_cost = false;
+    p.tags.push("builder_defaults".into());
+}
+
 pub fn gen_plan(prop: &str, seed: u64, variant: u64) -> Plan {
+    let mut p = gen_plan_inner(prop, seed, variant);
+    // the builder recipe (constructor, order of setters) varies with the run
+    if !matches!(p.cfg.keys, KeyMode::Typed { .. }) {
+        p.cfg.recipe = ((variant / 3) % 4) as u8;
+    }
+    // every seventh run goes through the constructor's defaults
+    if variant % 7 == 3 {
+        apply_defaults(&mut p);
+    }
+    p
+}
+
+fn gen_plan_inner(prop: &str, seed: u64, variant: u64) -> Plan {
     // experiments: judge property X on the scenario family of property Y (DST_GEN=Y)
     let over = std::env::var("DST_GEN").ok();
     let prop = over.as_deref().unwrap_or(prop);
